@@ -2,13 +2,13 @@ PROPS["C14"] = dict(
     pkg="p_ring", hooks=["container"], level="exploration", design="DESIGN.md §4 C14",
     technique="model-based PBT (rapid) against a slice model + bounded-exhaustive op-list enumeration",
     rule="case = (capacity, op list over Write/Read/ReadN/Skip/At/Clear); exhaustive over the full op alphabet "
-         "(ReadN len 0..cap+2, Skip -1..cap+2, At -1..cap+1) for capacities 0..3(4) to the depth in exhaustive_parts, rapid lists "
-         "for capacities 0..300; non-trivial = some op spanned the wrap point of the backing array, or Write hit Len==Cap, "
+         "(ReadN len 0..cap+2, Skip -1..cap+2 and MaxInt, At -1..cap+1 and MaxInt) for capacities 0..3(4) to the depth in exhaustive_parts, rapid lists "
+         "for capacities 0..300 with arguments that also include +-2^31, +-2^40, MaxInt, MinInt; non-trivial = some op spanned the wrap point of the backing array, or Write hit Len==Cap, "
          "or Read hit empty; distinct = FNV hash of (capacity, op list)",
     assumptions=["slice model of a bounded FIFO written from the RingBuffer interface comments and the C14 statement",
                  "cleared-slot invariant read through the overlay accessor VerifRingSlots (skipped if the hook no longer compiles)"],
     units=[
-        dict(name="exhaustive", run="^TestC14Exhaustive$", shards=(1, 16), timeout=(200, 1500)),
+        dict(name="exhaustive", run="^TestC14Exhaustive$", shards=(4, 16), timeout=(200, 1500)),
         dict(name="rapid", run="^TestC14Rapid$", checks=(30000, 60000), shards=(2, 16), timeout=(200, 1500)),
     ],
 )
